@@ -43,6 +43,11 @@ class SegWorld(World):
         self.yields = {i: [] for i in range(len(self.fetchers))}
         self.harness_tasks = set()
 
+    def violate(self, prop, rule, comp, where, detail):
+        if self.scenario.get('final_on') in ('early', 'first') and rule in ('order', 'outcome', 'incomplete', 'attempts'):
+            where = f'{where}+final-announced-earlier'
+        return super().violate(prop, rule, comp, where, detail)
+
     # ---- scripted producer -----------------------------------------------------------------
     def _on_tx(self, wire):
         try:
@@ -107,7 +112,10 @@ class SegWorld(World):
         if target >= self.nseg + sc.get('stored_beyond', 0):
             return None
         final = seg_comp(self.nseg - 1)
-        put_final = sc['final_on'] == 'all' or target == self.nseg - 1
+        fo = sc['final_on']
+        # 'early': only segments BEFORE the final one announce it (the final segment itself carries no FinalBlockId)
+        put_final = fo == 'all' or (fo == 'last' and target == self.nseg - 1) or (fo == 'early' and (target < self.nseg - 1 or self.nseg == 1)) \
+            or (fo == 'first' and target == 0)
         if sc.get('stored_beyond') and target >= self.nseg - 1:
             pass        # the producer holds more segments than the designated final one; the fetch must stop at the final
         mi = enc.MetaInfo(freshness_period=1000, final_block_id=final if put_final else None)
@@ -409,7 +417,8 @@ def generate(rng, seed, tier='quick'):
             'config': {'turn_cost_us': rng.choice([0, 0, 1]), 'wall_gran_us': 1000, 'debug_log': rng.random() < 0.1},
             'prefix': rng.choice([['obj'], ['a', 'obj'], ['x', 'y', 'z']]), 'version': rng.choice([None, 'v1', 'v1']),
             'nseg': nseg, 'sizes': [rng.choice([0, 1, 3, 10, 300]) for _ in range(max(nseg, 1))],
-            'final_on': rng.choice(['last', 'all']), 'discovery': discovery, 'loss': loss, 'invalid': invalid,
+            'final_on': rng.choice(['last', 'all', 'all', 'early', 'first']) if nseg >= 2 else rng.choice(['last', 'all']),
+            'discovery': discovery if nseg < 2 or rng.random() < 0.7 else 0, 'loss': loss, 'invalid': invalid,
             'retry_times': R, 'lifetime': life, 'mbf': rng.random() < 0.7,
             'stored_beyond': rng.choice([0, 0, 0, 1, 3]) if nseg else 0,
             'ops': [{'seg': k} for k in keys]}
